@@ -202,6 +202,28 @@ def make_pool(spec):
     return cf.ProcessPoolExecutor(max_workers=NPROC, mp_context=ctx)
 
 
+def close_pool(ex):
+    """Shut an executor down for good.  shutdown(wait=False) alone can leave
+    idle workers blocked on the call-queue lock and the manager thread polling
+    for ever (seen with CPython 3.12.1 when futures failed), which then hangs
+    the interpreter at exit: terminate the workers explicitly."""
+    procs = list((getattr(ex, '_processes', None) or {}).values())
+    try:
+        close_pool(ex)
+    except Exception:
+        pass
+    for p in procs:
+        try:
+            p.terminate()
+        except Exception:
+            pass
+    for p in procs:
+        try:
+            p.join(timeout=5)
+        except Exception:
+            pass
+
+
 def batch(ex, spec, tier, base_seed, n, *, mutant=None, only_stratum=None,
           chunk=None, max_viol=3, wall_cap=None, stop_on_first=False):
     chunk = chunk or max(1, min(500, n // (NPROC * 6) or 1))
@@ -601,7 +623,7 @@ def run_check(spec, tier, base_seed, *, out=print):
                         raise
             finally:
                 if exm is not ex:
-                    exm.shutdown(wait=False, cancel_futures=True)
+                    close_pool(exm)
 
         for kid, (kf, path, cnt) in known_hit.items():
             lines.append(f'KNOWN-FINDING: property={pid} {kf["what"]} [id={kid} replay={os.path.relpath(path, VERIF)} runs={cnt}]')
@@ -647,7 +669,7 @@ def run_check(spec, tier, base_seed, *, out=print):
                     harness_msgs.append(f'mutant {m["name"]} failed to run: {e!r}')
             finally:
                 if exm is not ex:
-                    exm.shutdown(wait=False, cancel_futures=True)
+                    close_pool(exm)
         if sens['missed']:
             lines.append(f'SELFTEST-WARNING: mutants not caught within budget: {sens["missed"]}')
         samples_raw = []
@@ -656,7 +678,7 @@ def run_check(spec, tier, base_seed, *, out=print):
             samples_raw.append((k, stratum) + tuple(
                 in_worker(ex, _run_seed_job, derive_seed(base_seed, k), stratum, True)))
     finally:
-        ex.shutdown(wait=False, cancel_futures=True)
+        close_pool(ex)
 
     wall = time.time() - t0
     # 5. evidence
